@@ -112,3 +112,44 @@ pub fn parse_error_kinds() {
     if err == 0 { assert!(r.is_ok()); }
     if err != 0 { assert!(r.is_err()); }
 }
+
+// ---- the policy forms of the public API (impl_from_str_traits!): plain / saturating / wrapping against the overflowing form,
+// which the harnesses above decide.  BOUND: ASCII strings of at most 4 bytes; I4F4 and U4F4; decimal and hexadecimal.
+macro_rules! policy_forms {
+    ($name:ident, $T:ty, $ovf:expr, $plain:expr, $sat:expr, $wrap:expr) => {
+        #[cfg(kani)]
+        #[kani::proof]
+        #[kani::unwind(8)]
+        pub fn $name() {
+            use substrate_fixed::types::*;
+            let bytes: [u8; 4] = kani::any();
+            let len: usize = kani::any();
+            kani::assume(len <= 4);
+            kani::assume(bytes[0] < 128 && bytes[1] < 128 && bytes[2] < 128 && bytes[3] < 128);
+            // ASCII only, so the slice is valid UTF-8
+            let s: &str = unsafe { core::str::from_utf8_unchecked(&bytes[..len]) };
+            let o = ($ovf)(s);
+            let p = ($plain)(s);
+            let sa = ($sat)(s);
+            let w = ($wrap)(s);
+            match o {
+                Err(_) => { assert!(p.is_err() && sa.is_err() && w.is_err()); }
+                Ok((v, false)) => { assert!(p == Ok(v) && sa == Ok(v) && w == Ok(v)); }
+                Ok((v, true)) => {
+                    // plain: an overflow error; saturating: the bound on the literal's side; wrapping: the wrapped value
+                    assert!(p.is_err());
+                    assert!(w == Ok(v));
+                    let neg = len > 0 && bytes[0] == b'-';
+                    kani::cover!(neg);
+                    kani::cover!(!neg);
+                    assert!(sa == Ok(if neg { <$T>::min_value() } else { <$T>::max_value() }));
+                }
+            }
+        }
+    };
+}
+use substrate_fixed::types::{I4F4, U4F4};
+policy_forms!(policy_forms_u4f4_dec, U4F4, U4F4::overflowing_from_str, <U4F4 as core::str::FromStr>::from_str, U4F4::saturating_from_str, U4F4::wrapping_from_str);
+policy_forms!(policy_forms_i4f4_dec, I4F4, I4F4::overflowing_from_str, <I4F4 as core::str::FromStr>::from_str, I4F4::saturating_from_str, I4F4::wrapping_from_str);
+policy_forms!(policy_forms_i4f4_hex, I4F4, I4F4::overflowing_from_str_hex, I4F4::from_str_hex, I4F4::saturating_from_str_hex, I4F4::wrapping_from_str_hex);
+policy_forms!(policy_forms_u4f4_oct, U4F4, U4F4::overflowing_from_str_octal, U4F4::from_str_octal, U4F4::saturating_from_str_octal, U4F4::wrapping_from_str_octal);
